@@ -51,6 +51,23 @@ Theorem C13_not_implemented_is_answered :
 Proof. exact not_implemented. Qed.
 Print Assumptions C13_not_implemented_is_answered.
 
+(* a subscribe request: whatever it produces starts with its one terminal answer; the snapshot and later events follow *)
+Theorem C13_subscribe_answer_first :
+  forall w sn m s, lookup_n sn (w_sess w) = Some s -> is_subscribe m = true ->
+  let out := snd (fst (handle w sn m)) in
+  out = [] \/ exists code rest, out = (sn, SAck (tid_of m)) :: rest \/ out = (sn, SErr (tid_of m) code []) :: rest.
+Proof. exact subscribe_answer_first. Qed.
+Print Assumptions C13_subscribe_answer_first.
+
+(* subscription events go to the session that subscribed and carry the id of their subscribe request;
+   lock traffic carries the id of its acquire request *)
+Theorem C13_events_carry_their_id :
+  forall w o sn msg, In (sn, msg) (route_events w o) ->
+  (exists inst t k, lookup_n inst (w_chan w) = Some (sn, t, k) /\ event_with_tid t msg) \/
+  (exists r t, lookup_n r (w_reqs w) = Some (sn, t) /\ (msg = SAck t \/ msg = SErr t E_LockAcquisitionCancelled [])).
+Proof. exact routed_event_id. Qed.
+Print Assumptions C13_events_carry_their_id.
+
 Example C13_nonvacuous :
   let w := fst (sstep (world_init false) (SOpen 0)) in
   snd (sstep w (SMsg 0 (MGet 7 [110;111]))) = [(0, SErr 7 E_NoSuchValue [])] /\
